@@ -172,7 +172,8 @@ impl PushCondition {
                     None => return false,
                 };
 
-                value.matches_pattern(&context.user_display_name, true)
+                // The display name is not a glob, `*` and `?` are only matched by themselves.
+                value.to_lowercase().contains_word(&context.user_display_name.to_lowercase())
             }
             Self::RoomMemberCount { is } => is.contains(&context.member_count),
             Self::SenderNotificationPermission { key } => {
@@ -313,6 +314,14 @@ trait StrExt {
     /// The match is case sensitive.
     fn matches_word(&self, pattern: &str) -> bool;
 
+    /// Whether this string contains `word` with word boundaries.
+    ///
+    /// Unlike with [`matches_word()`](Self::matches_word), the characters `*` and `?` in `word` have
+    /// no special meaning.
+    ///
+    /// The match is case sensitive.
+    fn contains_word(&self, word: &str) -> bool;
+
     /// Translate the wildcards in `self` to a regex syntax.
     ///
     /// `self` must only contain wildcards.
@@ -406,43 +415,54 @@ impl StrExt for str {
             // anything that fits in an event.
             Regex::new(&regex).is_ok_and(|re| re.is_match(self.as_bytes()))
         } else {
-            // Look at each occurrence of the pattern that starts a new word, without recursing: the
-            // number of words is only limited by the size of the value.
-            let mut haystack = self;
+            self.contains_word(pattern)
+        }
+    }
 
-            loop {
-                let Some(start) = haystack.find(pattern) else {
-                    return false;
-                };
-                let end = start + pattern.len();
+    fn contains_word(&self, pattern: &str) -> bool {
+        if self == pattern {
+            return true;
+        }
+        if pattern.is_empty() {
+            return false;
+        }
 
-                // Look if the match has word boundaries.
-                let word_boundary_start = !haystack.char_at(start).is_word_char()
-                    || !haystack.find_prev_char(start).is_some_and(|c| c.is_word_char());
+        // Look at each occurrence of the pattern that starts a new word, without recursing: the
+        // number of words is only limited by the size of the value.
+        let mut haystack = self;
 
-                if word_boundary_start {
-                    let word_boundary_end = end == haystack.len()
-                        || !haystack.find_prev_char(end).unwrap().is_word_char()
-                        || !haystack.char_at(end).is_word_char();
+        loop {
+            let Some(start) = haystack.find(pattern) else {
+                return false;
+            };
+            let end = start + pattern.len();
 
-                    if word_boundary_end {
-                        return true;
-                    }
+            // Look if the match has word boundaries.
+            let word_boundary_start = !haystack.char_at(start).is_word_char()
+                || !haystack.find_prev_char(start).is_some_and(|c| c.is_word_char());
+
+            if word_boundary_start {
+                let word_boundary_end = end == haystack.len()
+                    || !haystack.find_prev_char(end).unwrap().is_word_char()
+                    || !haystack.char_at(end).is_word_char();
+
+                if word_boundary_end {
+                    return true;
                 }
-
-                // Find next word.
-                let non_word_str = &haystack[start..];
-                let Some(non_word) = non_word_str.find(|c: char| !c.is_word_char()) else {
-                    return false;
-                };
-
-                let word_str = &non_word_str[non_word..];
-                let Some(word) = word_str.find(|c: char| c.is_word_char()) else {
-                    return false;
-                };
-
-                haystack = &word_str[word..];
             }
+
+            // Find next word.
+            let non_word_str = &haystack[start..];
+            let Some(non_word) = non_word_str.find(|c: char| !c.is_word_char()) else {
+                return false;
+            };
+
+            let word_str = &non_word_str[non_word..];
+            let Some(word) = word_str.find(|c: char| c.is_word_char()) else {
+                return false;
+            };
+
+            haystack = &word_str[word..];
         }
     }
 
